@@ -170,6 +170,16 @@ def main():
     arch_pre = m.group(2)
     arch_double = re.findall(r'"([^"]+)"', m.group(3))
 
+    # supported URL schemes: Scheme::parse and Display for Scheme
+    vurl = open(os.path.join(REPO, "src/verbatim_url.rs"), encoding="utf-8").read()
+    b = fn_body(vurl, r"impl Scheme\s*\{", "parse", "Scheme::parse")
+    scheme_parse = re.findall(r'"([^"]+)"\s*=>\s*Some\(Self::(\w+)\)', b)
+    b = fn_body(vurl, r"impl std::fmt::Display for Scheme\s*\{", "fmt", "Display for Scheme")
+    scheme_display = re.findall(r'Self::(\w+)\s*=>\s*write!\(f,\s*"([^"]+)"\)', b)
+    scheme_variants = enum_variants(vurl, "Scheme")
+    if len(scheme_parse) < 3 or len(scheme_display) < 3:
+        raise TableError("Scheme: cannot read parse / Display")
+
     def pairs(rows):
         return "[" + ", ".join(f"({lean_str(a)}, {lean_str(b)})" for a, b in rows) + "]"
 
@@ -200,6 +210,9 @@ def main():
     out.append(f"def operatorToPep440 : List (String × Option String) := {opt_pairs(to440)}")
     out.append(f"def getString : List (String × String) := {pairs(get_string)}")
     out.append(f"def getVersion : List (String × String) := {pairs(get_version)}")
+    out.append(f"def schemeVariants : List String := {strs(scheme_variants)}")
+    out.append(f"def schemeParse : List (String × String) := {pairs(scheme_parse)}")
+    out.append(f"def schemeDisplay : List (String × String) := {pairs(scheme_display)}")
     out.append(f"def archiveSingle : List String := {strs(arch_single)}")
     out.append(f"def archivePre : String := {lean_str(arch_pre)}")
     out.append(f"def archiveDouble : List String := {strs(arch_double)}")
